@@ -1,6 +1,20 @@
 """Per-property manifest metadata.  bin/mkmanifest renders MANIFEST.json from this."""
 
 CHECKS = {
+    "C16": dict(
+        text="spec/ConfigWrite.tla states the contract over the ordered set operations the NCP sees (each setting at most once; a "
+             "user value exactly as given; nothing for a disabled setting; bellows' own defaults never below the reported value for "
+             "capacity settings pinned by name; packet-buffer count after every other setting; every applicable setting attempted "
+             "whatever the NCP answered; normal return). ConfigWriteMC shows the contract satisfiable for all 248,832 abstract inputs "
+             "(5 representative settings x reported value x override) and that mis-ordered / shrinking writes violate the right clause. "
+             "The real EZSP.write_config runs for every version 4..14 against the simulated NCP with generated reported values, "
+             "override sets drawn from the version's whole schema, disabled settings and 20% rejected settings (60 quick / 1500 "
+             "thorough per version + corner cases); TLC evaluates the contract on each recorded run (Trace_ConfigWrite).",
+        design_ref="3/C16",
+        note="Trusted: simulated EZSP NCP (configuration store). Bellows' default table is read from the tree as configuration; "
+             "capacity settings are pinned in the spec. Found and fixed three defects (known_findings.json: fixed).",
+        technique="TLA+ contract specification evaluated by TLC on recorded runs of the implementation (trace validation) + TLC satisfiability check over all abstract inputs",
+    ),
     "C18": dict(
         text="spec/StatusMap.tla states the normalisation as a total relation with numeric codes pinned from the EmberZNet headers "
              "(unified passes through; OK iff the family's success code; the steering codes NOT_JOINED, NETWORK_UP/DOWN, "
